@@ -935,6 +935,9 @@ class I:
     def __repr__(self):
         return f"I({z3.simplify(self.t)})"
 
+    def __format__(self, spec):
+        return repr(self)
+
 
 numbers.Integral.register(I)
 
